@@ -1,6 +1,25 @@
 use std::fmt::{Display, Formatter};
+use std::future::Future;
+use std::io;
 use std::sync::{Arc, Mutex};
+use std::time::Duration;
 use tokio::sync::{broadcast, mpsc};
+
+/// How long the orderly close of a session may take once a shutdown has been submitted
+pub(crate) const SESSION_CLOSE_TIMEOUT: Duration = Duration::from_secs(10);
+
+/// Runs the orderly close of a session that ends because a shutdown has been submitted.
+/// A client that has stopped reading takes neither the rest of its download nor the closing
+/// alert: it must not keep the session, and the shutdown that waits for it, from finishing.
+/// When the limit expires the close fails and the connection is closed by dropping it.
+pub(crate) async fn close_within_bound<F>(close: F) -> io::Result<()>
+where
+    F: Future<Output = io::Result<()>>,
+{
+    tokio::time::timeout(SESSION_CLOSE_TIMEOUT, close)
+        .await
+        .unwrap_or_else(|_| Err(io::Error::from(io::ErrorKind::TimedOut)))
+}
 
 /// This entity is intended to provide a possibility to gracefully shutdown
 /// an async operation.
